@@ -1,6 +1,6 @@
 /-
 Source agreement for the typed attribute decoders (C08, C01): the bodies of `impl TryFrom<&RawAttribute> for T`
-(17 of the 19 built-in types), `MappedSocketAddr::from_raw`, `AddressFamily::from_byte` and
+(all 19 built-in types, including the `for` loop of UNKNOWN-ATTRIBUTES and the `while` walk of PASSWORD-ALGORITHMS), `MappedSocketAddr::from_raw`, `AddressFamily::from_byte` and
 `PasswordAlgorithmValue::read` are re-translated from the source on every run (`Gen/FnTyped.lean`: the guard with
 the range written in the source, the further tests and their order, which error is returned where, which bytes
 become which field) and equal the model's `fromRaw` for every raw attribute.
@@ -252,8 +252,86 @@ theorem src_fromRaw_errorCode (raw : RawAttr) : Gen.fromRawErrorCode raw = fromR
         · simp [q1]
       · simp [q]
 
-/-- the decoder regenerated from the source for each kind (`none`: the two list-valued kinds whose loops are
-    covered by `src_fromRaw_unknownAttributes` / the correspondence run) -/
+/-- UNKNOWN-ATTRIBUTES: the fold over `chunks_exact(2)` collects the big-endian 16-bit values in order -/
+theorem fold_chunks (v : Bytes) (acc : List Nat) :
+    (Gen.chunksExact2 v).foldl (fun attrs attr => attrs ++ [beNat (List.take 2 attr)]) acc = acc ++ u16List v := by
+  induction v using Gen.chunksExact2.induct generalizing acc with
+  | case1 a b rest ih =>
+    simp only [Gen.chunksExact2, List.foldl_cons, u16List]
+    rw [ih]
+    simp [beNat, be16]
+  | case2 v hne =>
+    match v, hne with
+    | [], _ => simp [Gen.chunksExact2, u16List]
+    | [_], _ => simp [Gen.chunksExact2, u16List]
+    | a :: b :: rest, hne => exact absurd rfl (hne a b rest)
+
+theorem src_fromRaw_unknownAttributes (raw : RawAttr) :
+    Gen.fromRawUnknownAttributes raw = fromRaw .unknownAttributes raw := by
+  unfold Gen.fromRawUnknownAttributes fromRaw
+  simp only [Kind.code, fold_chunks, List.nil_append]
+  by_cases h1 : raw.ty = 10 <;> by_cases h2 : raw.value.length % 2 = 0 <;> simp [h1, h2]
+
+/-- PASSWORD-ALGORITHMS: the `while` walk over the entries.  With `4 * n` bytes left and more than `n` units of
+    fuel the source's loop is the model's loop on the remaining bytes (whose own fuel only has to cover `n`) -/
+theorem pwAlgosWalk_agree (raw : RawAttr) : ∀ (n fuel mf i : Nat) (algos : List Nat),
+    raw.value.length - i = 4 * n → i ≤ raw.value.length → n < fuel → n ≤ mf →
+    Gen.pwAlgosWalk raw fuel i algos =
+      (match pwAlgosLoop mf (raw.value.drop i) with
+       | .ok r => .ok (.passwordAlgorithms (algos ++ r))
+       | .error e => .error e) := by
+  intro n
+  induction n with
+  | zero =>
+    intro fuel mf i algos hlen hi hf _
+    have hil : ¬ i < raw.value.length := by omega
+    have hd : raw.value.drop i = [] := List.drop_eq_nil_of_le (by omega)
+    match fuel, hf with
+    | fuel + 1, _ =>
+      unfold Gen.pwAlgosWalk
+      simp only [hil, if_false, hd]
+      cases mf <;> simp [pwAlgosLoop]
+  | succ n ih =>
+    intro fuel mf i algos hlen hi hf hmf
+    have hil : i < raw.value.length := by omega
+    match fuel, hf, mf, hmf with
+    | fuel + 1, hf, mf + 1, hmf =>
+      unfold Gen.pwAlgosWalk
+      simp only [hil, if_true]
+      have hdl : (raw.value.drop i).length = 4 * (n + 1) := by simp [List.length_drop]; omega
+      rw [src_pwAlgoValueRead _ (by omega)]
+      have hp4 : 4 + Gen.paddedAttrLen Gen.pwAlgoValueLen = 4 := by decide
+      have hp : i + (4 + Gen.paddedAttrLen Gen.pwAlgoValueLen) = i + 4 := by rw [hp4]
+      match hd : raw.value.drop i, hdl with
+      | t0 :: t1 :: l0 :: l1 :: rest, hdl =>
+        have hrest : rest = raw.value.drop (i + 4) := by
+          have := congrArg (List.drop 4) hd
+          simp only [List.drop_drop, List.drop_succ_cons, List.drop_zero] at this
+          rw [← this]
+        simp only [pwAlgosLoop, List.drop_succ_cons, List.drop_zero, bind, Except.bind]
+        cases hr : pwAlgoRead (t0 :: t1 :: l0 :: l1 :: rest) with
+        | error e => simp
+        | ok a =>
+          simp only [hp]
+          rw [ih fuel mf (i + 4) (algos ++ [a]) (by omega) (by omega) (by omega) (by omega), ← hrest]
+          cases pwAlgosLoop mf rest <;> simp
+
+theorem src_fromRaw_passwordAlgorithms (raw : RawAttr) :
+    Gen.fromRawPasswordAlgorithms raw = fromRaw .passwordAlgorithms raw := by
+  unfold Gen.fromRawPasswordAlgorithms fromRaw
+  simp only [ctl_iu, Kind.code, bind, Except.bind]
+  generalize h : raw.checkTypeAndLen 32770 (some 4) none = r
+  cases r <;> simp only
+  by_cases h4 : raw.value.length % 4 = 0
+  · have hn : ¬ (raw.value.length % 4 ≠ 0) := by omega
+    simp only [hn, if_false]
+    rw [pwAlgosWalk_agree raw (raw.value.length / 4) (raw.value.length + 1) raw.value.length 0 [] (by omega) (by omega) (by omega) (by omega)]
+    simp only [List.drop_zero, List.nil_append]
+    cases pwAlgosLoop raw.value.length raw.value <;> rfl
+  · have hn : raw.value.length % 4 ≠ 0 := h4
+    rw [if_pos hn, if_pos hn]
+
+/-- the decoder regenerated from the source for each kind (all 19) -/
 def genFromRaw : Kind → Option (RawAttr → Except PErr AttrVal)
   | .username => some Gen.fromRawUsername | .realm => some Gen.fromRawRealm | .nonce => some Gen.fromRawNonce
   | .software => some Gen.fromRawSoftware | .alternateDomain => some Gen.fromRawAlternateDomain
@@ -264,7 +342,7 @@ def genFromRaw : Kind → Option (RawAttr → Except PErr AttrVal)
   | .iceControlled => some Gen.fromRawIceControlled | .iceControlling => some Gen.fromRawIceControlling
   | .errorCode => some Gen.fromRawErrorCode | .passwordAlgorithm => some Gen.fromRawPasswordAlgorithm
   | .alternateServer => some Gen.fromRawAlternateServer | .xorMappedAddress => some Gen.fromRawXorMappedAddress
-  | .unknownAttributes => none | .passwordAlgorithms => none
+  | .unknownAttributes => some Gen.fromRawUnknownAttributes | .passwordAlgorithms => some Gen.fromRawPasswordAlgorithms
 
 /-- every regenerated decoder is the model's decoder of its kind, on every raw attribute: so `C08.decode_iff`,
     `decode_fields`, `roundtrip`, `stable` and `C01.typed_total` are statements about what these source
@@ -280,9 +358,10 @@ theorem src_fromRaw (k : Kind) (f : RawAttr → Except PErr AttrVal) (h : genFro
     | exact src_fromRaw_useCandidate raw | exact src_fromRaw_iceControlled raw
     | exact src_fromRaw_iceControlling raw | exact src_fromRaw_errorCode raw
     | exact src_fromRaw_passwordAlgorithm raw | exact src_fromRaw_alternateServer raw
-    | exact src_fromRaw_xorMappedAddress raw
+    | exact src_fromRaw_xorMappedAddress raw | exact src_fromRaw_unknownAttributes raw
+    | exact src_fromRaw_passwordAlgorithms raw
 
-/-- non-vacuity: 17 of the 19 kinds have a regenerated decoder -/
-example : (Kind.all.filter fun k => (genFromRaw k).isSome).length = 17 := by decide
+/-- non-vacuity: all 19 kinds have a regenerated decoder -/
+example : Kind.all.all (fun k => (genFromRaw k).isSome) = true := by decide
 
 end StunVerif.SrcFnTyped
